@@ -43,7 +43,12 @@ FLAVOURS = {
     "fillB": {"cxx": "g++", "flags": PROD + ["-ftrivial-auto-var-init=zero"], "ld": ["-fopenmp"]},
     "fillA512": {"cxx": "g++", "flags": PROD + A512 + ["-ftrivial-auto-var-init=pattern"], "ld": ["-fopenmp"]},
     "fillB512": {"cxx": "g++", "flags": PROD + A512 + ["-ftrivial-auto-var-init=zero"], "ld": ["-fopenmp"]},
+    "fillAshim": {"cxx": "g++", "flags": PROD + ["-ftrivial-auto-var-init=pattern"], "ld": [], "shim": True},
+    "fillBshim": {"cxx": "g++", "flags": PROD + ["-ftrivial-auto-var-init=zero"], "ld": [], "shim": True},
     "vg": {"cxx": "g++", "flags": ["-O1", "-g", "-mavx2", "-fopenmp", "-pthread"], "ld": ["-fopenmp"]},
+    # the same with the OpenMP stand-in (sequential members): no thread start-up cost under valgrind / ASan
+    "vgshim": {"cxx": "g++", "flags": ["-O1", "-g", "-mavx2", "-fopenmp", "-pthread"], "ld": [], "shim": True},
+    "asanshim": {"cxx": "g++", "flags": SAN, "ld": ["-fsanitize=address,undefined"], "shim": True},
 }
 LIBS = ["-lgmpxx", "-lgmp", "-lpthread"]
 
@@ -148,6 +153,7 @@ class Results:
         self.notes = []
         self.inconclusive = []
         self.runs = []
+        self.digests = {}
 
     def add_line(self, obj, tag):
         t = obj.get("type")
@@ -164,6 +170,8 @@ class Results:
             self.hashes.update(obj.get("nt_hashes", []))
             for k, v in obj.get("violation_counts", {}).items():
                 self.violation_counts[k] = self.violation_counts.get(k, 0) + v
+            for k, v in obj.get("digests", {}).items():
+                self.digests[k] = (self.digests.get(k, 0) + v) & 0xFFFFFFFFFFFFFFFF
         elif t == "violation":
             k = obj["key"]
             if k not in self.violations:
@@ -190,6 +198,8 @@ class Results:
             self.violations.setdefault(k, v)
         for k, v in other.violation_counts.items():
             self.violation_counts[k] = self.violation_counts.get(k, 0) + v
+        for k, v in other.digests.items():
+            self.digests[k] = (self.digests.get(k, 0) + v) & 0xFFFFFFFFFFFFFFFF
         self.notes += other.notes
         self.inconclusive += other.inconclusive
         self.runs += other.runs
@@ -255,6 +265,9 @@ def classify_death(serr, rc):
     m = re.search(r"runtime error: ([^\n]{0,60})", serr)
     if m:
         return "ubsan-" + re.sub(r"\d+", "#", m.group(1))
+    if "LeakSanitizer: detected memory leaks" in serr:
+        m = re.search(r"#\d+ 0x[0-9a-f]+ in (\S+) (/\S*/src/\S+)", serr)
+        return "lsan-leak" + ("@" + m.group(1) if m else "")
     if "ThreadSanitizer" in serr:
         return "tsan"
     return "rc%s" % rc
@@ -287,6 +300,37 @@ def parse_tsan_logs(pattern):
             key = "tsan:%s:%s" % (kind, "|".join(sorted(set(frames[:2]))) or "unknown-frames")
             out.setdefault(key, blk[:3000])
     return out, nreports
+
+
+def parse_valgrind(text):
+    """memcheck error blocks -> {key: excerpt}; key = error kind + first frame inside the repository sources"""
+    out = {}
+    kinds = ["Conditional jump or move depends on uninitialised value", "Use of uninitialised value", "Invalid read", "Invalid write",
+             "Mismatched free", "Invalid free", "Syscall param", "Source and destination overlap", "Argument .* is not a valid", "definitely lost"]
+    lines = text.splitlines()
+    i = 0
+    while i < len(lines):
+        ln = re.sub(r"^==\d+== ?", "", lines[i])
+        kind = None
+        for k in kinds:
+            if re.match(k, ln):
+                kind = re.sub(r"[^A-Za-z]+", "-", ln.split(" of size")[0].strip())[:50]
+                break
+        if kind:
+            frame = "unknown-frame"
+            j = i + 1
+            blk = [lines[i]]
+            while j < len(lines) and re.match(r"^==\d+==\s+(at|by) ", lines[j]):
+                blk.append(lines[j])
+                m = re.search(r"(?:at|by) 0x[0-9A-F]+: (.+?) \((\S+?):(\d+)\)", lines[j])
+                if m and frame == "unknown-frame" and re.search(r"(goldilocks|ntt_|poseidon|merklehash)", m.group(2)) :
+                    frame = re.sub(r"\(.*", "", m.group(1)) + "@" + m.group(2)
+                j += 1
+            out.setdefault("memcheck:%s:%s" % (kind, frame), "\n".join(blk[:14]))
+            i = j
+        else:
+            i += 1
+    return out
 
 
 # ----------------------------------------------------------------------------- known findings
